@@ -13,7 +13,7 @@ from .common import TOL
 
 PROPERTY = "C01"
 LEVEL = "exploration"
-RUNS = {"quick": 900, "thorough": 60000}
+RUNS = {"quick": 2500, "thorough": 60000}
 RULE = ("seeded scenarios: a scripted client (independent reference encoder) and a real aiocoap client exchange 10-40 "
         "generated messages with a real aiocoap server: all 4 types, codes 0-255, message IDs incl. 0/0xFFFF, tokens of "
         "0-8 bytes, option lists over every option format (string, opaque, uint, block, content-format, empty), unknown "
